@@ -1885,6 +1885,218 @@ theorem eulerRun_total (c : Cfg α) (tf dtminS : α) :
     · exact ⟨_, rfl⟩
 
 
+/-! ### totality for the Runge-Kutta step and for runs with either iterator -/
+
+/-- a state `sF` reached from `s` by evaluations (same phases, same grids, position by position) together with a state vector
+with one distribution per phase and one entry per class -/
+def StageOK (s sF : St α) (x : List (List α)) : Prop :=
+  sF.ph.length = s.ph.length ∧ sF.hist = s.hist ∧
+  (∀ (i : Nat) (psF : PhaseSt α), sF.ph[i]? = some psF → ∃ ps, s.ph[i]? = some ps ∧ psF.grid = ps.grid) ∧
+  x.length = s.ph.length ∧
+  (∀ (i : Nat) (ps : PhaseSt α) (xi : List α), s.ph[i]? = some ps → x[i]? = some xi → xi.length = ps.grid.bins)
+
+theorem entryX_getElem (c : Cfg α) (s : St α) (i : Nat) (ps : PhaseSt α) (hi : s.ph[i]? = some ps) :
+    (entryX c s)[i]? = some (PSD.processX ps.rdfIdx c.minRadius ps.grid.psd ps.grid.size) := by
+  simp [entryX, processAll, List.getElem?_zipWith, List.getElem?_map, hi]
+
+theorem stageOK_entry (c : Cfg α) (s : St α) (hg : AllGood s.ph) : StageOK s s (entryX c s) := by
+  refine ⟨rfl, rfl, fun i psF h => ⟨psF, h, rfl⟩, by simp [entryX, processAll], ?_⟩
+  intro i ps xi hi hx
+  rw [entryX_getElem c s i ps hi] at hx
+  have hinv := C08.inv_spec ps.grid (hg ps (List.mem_of_getElem? hi)).1
+  rw [← Option.some.inj hx, processX_len, hinv.2.1, hinv.2.2.2.1]; simp
+
+/-- `_processX` on a stage vector keeps it a stage vector (the thresholds are those of the state it is evaluated in) -/
+theorem stageOK_process (c : Cfg α) (s sF : St α) (x : List (List α)) (hg : AllGood s.ph) (h : StageOK s sF x) :
+    StageOK s sF (processAll c sF x) := by
+  obtain ⟨hl, hh, hgr, hxl, hxi⟩ := h
+  refine ⟨hl, hh, hgr, by simp [processAll, hl, hxl], ?_⟩
+  intro i ps xi hi hx
+  have hil : i < s.ph.length := (List.getElem?_eq_some_iff.mp hi).1
+  have hF : sF.ph[i]? = some sF.ph[i] := List.getElem?_eq_getElem (by rw [hl]; exact hil)
+  have hX : x[i]? = some x[i] := List.getElem?_eq_getElem (by rw [hxl]; exact hil)
+  obtain ⟨ps', hps', hgrid⟩ := hgr i _ hF
+  have : ps' = ps := by rw [hi] at hps'; exact (Option.some.inj hps').symm
+  subst this
+  simp only [processAll, List.getElem?_zipWith, hF, hX, Option.map_some, Option.some.injEq] at hx
+  have hinv := C08.inv_spec ps'.grid (hg ps' (List.mem_of_getElem? hi)).1
+  rw [← hx, processX_len, hxi i ps' _ hi hX, hgrid, hinv.2.2.2.1]; simp
+
+/-- an evaluation keeps a stage state a stage state -/
+theorem stageOK_eval (c : Cfg α) (s sF : St α) (x : List (List α)) (t : α) (a : EvalAns α) (y : Slice α)
+    (hc : c.phases.length = s.ph.length) (ha : AnsShaped c s.ph.length a) (h : StageOK s sF x) :
+    StageOK s (depEval c sF t x a y).1 x ∧ (depEval c sF t x a y).2.ph.length = s.ph.length := by
+  obtain ⟨hl, hh, hgr, hxl, hxi⟩ := h
+  have hev := depEval_length c sF t x a y (by rw [hl]; exact hc) (by rw [hl]; exact ha) (by rw [hl]; exact hxl)
+  refine ⟨⟨by rw [hev.1]; exact hl, by rw [depEval_hist]; exact hh, ?_, hxl, hxi⟩, by rw [hev.2]; exact hl⟩
+  intro i psF hF
+  unfold depEval at hF
+  obtain ⟨ps1, h1, hg1⟩ := growthRate_grid c sF a _ i psF hF
+  obtain ⟨ps, hps, hg⟩ := hgr i ps1 h1
+  exact ⟨ps, hps, by rw [hg1, hg]⟩
+
+/-- `_updateX` from a stage state gives a stage vector again -/
+theorem stageOK_stageX (c : Cfg α) (s sF : St α) (x : List (List α)) (y : Slice α) (dt : α) (hg : AllGood s.ph)
+    (hy : y.ph.length = s.ph.length) (h : StageOK s sF x) : StageOK s sF (stageX c s sF x y dt) := by
+  obtain ⟨hl, hh, hgr, hxl, hxi⟩ := h
+  have he := stageOK_entry c s hg
+  refine ⟨hl, hh, hgr, ?_, ?_⟩
+  · simp only [stageX, List.length_map, zip3_length]; rw [hl, hxl, he.2.2.2.1, hy]; simp
+  · intro i ps xi hi hx
+    have hil : i < s.ph.length := (List.getElem?_eq_some_iff.mp hi).1
+    have hF : sF.ph[i]? = some sF.ph[i] := List.getElem?_eq_getElem (by rw [hl]; exact hil)
+    have hX : x[i]? = some x[i] := List.getElem?_eq_getElem (by rw [hxl]; exact hil)
+    have hY : y.ph[i]? = some y.ph[i] := List.getElem?_eq_getElem (by rw [hy]; exact hil)
+    have hE := entryX_getElem c s i ps hi
+    simp only [stageX, List.getElem?_map, zip3_getElem?, hF, hX, hi, hE, hY, Option.map_some, Option.some.injEq] at hx
+    rw [← hx, advanceStage_length]
+    exact he.2.2.2.2 i ps _ hi hE
+
+/-- `_appendArrays` + `_updateParticleSizeDistribution` never raise on a stage state reached from a good state -/
+theorem finishStep_total (c : Cfg α) (s sE : St α) (y : Slice α) (t' : α) (x : List (List α)) (upd : List (UpdAns α))
+    (hs : StGood c s) (hst : StageOK s sE x) (hy : y.ph.length = s.ph.length) (hul : upd.length = s.ph.length)
+    (hu : ∀ u ∈ upd, UpdShaped c s.ph.length u) : ∃ sD, finishStep c (sE, y) t' x upd = some sD := by
+  obtain ⟨hc, hcur, hgood⟩ := hs
+  obtain ⟨hl, hh, hgr, hxl, hxi⟩ := hst
+  unfold finishStep
+  apply updateAll_total
+  · simp only [Nat.zero_add]; rw [hxl, hl]
+  · show c.phases.length = sE.ph.length; rw [hl]; exact hc
+  · show (St.cur c.nElem { sE with hist := y :: sE.hist }).ph.length = sE.ph.length
+    simp only [St.cur, List.headD_cons]; rw [hy, hl]
+  · rw [hul, hxl]
+  · intro u hu'; show UpdShaped c sE.ph.length u; rw [hl]; exact hu u hu'
+  · intro i xi hx
+    simp only [Nat.zero_add]
+    have hil : i < s.ph.length := by rw [← hxl]; exact (List.getElem?_eq_some_iff.mp hx).1
+    have hF : sE.ph[i]? = some sE.ph[i] := List.getElem?_eq_getElem (by rw [hl]; exact hil)
+    obtain ⟨ps, hps, hgrid⟩ := hgr i _ hF
+    refine ⟨sE.ph[i], hF, ?_⟩
+    unfold Ready
+    rw [hgrid]
+    exact ⟨(hgood ps (List.mem_of_getElem? hps)).1, hxi i ps xi hps hx, (hgood ps (List.mem_of_getElem? hps)).2⟩
+
+/-- **an accepted Runge-Kutta step never raises** either: three intermediate evaluations, each of which may rebuild tables
+or fall back on previous values, then the same post-processing -/
+theorem rk4Step_total (c : Cfg α) (s : St α) (tf dtminS dtmaxS : α) (a2 a3 a4 aPost : EvalAns α) (upd : List (UpdAns α))
+    (hs : StGood c s) (h2 : AnsShaped c s.ph.length a2) (h3 : AnsShaped c s.ph.length a3) (h4 : AnsShaped c s.ph.length a4)
+    (ha : AnsShaped c s.ph.length aPost) (hul : upd.length = s.ph.length) (hu : ∀ u ∈ upd, UpdShaped c s.ph.length u) :
+    ∃ o, rk4Step c s tf dtminS dtmaxS a2 a3 a4 aPost upd = some o := by
+  have hc := hs.1
+  have hcur := hs.2.1
+  have hg : AllGood s.ph := fun ps hps => (hs.2.2 ps hps).1
+  set dt := acceptedDt c s tf dtminS dtmaxS with hdt
+  set cur := s.cur c.nElem with hcu
+  -- stage 1 → 2
+  have k1 := stageOK_process c s s _ hg (stageOK_stageX c s s (entryX c s) cur (dt / 2) hg hcur (stageOK_entry c s hg))
+  obtain ⟨e2ok, e2y⟩ := stageOK_eval c s s _ (cur.time + dt / 2) a2 cur hc h2 k1
+  -- stage 2 → 3
+  have k2 := stageOK_process c s _ _ hg (stageOK_stageX c s _ _ _ (dt / 2) hg e2y e2ok)
+  obtain ⟨e3ok, e3y⟩ := stageOK_eval c s _ _ (cur.time + dt / 2) a3 _ hc h3 k2
+  -- stage 3 → 4
+  have k3 := stageOK_process c s _ _ hg (stageOK_stageX c s _ _ _ dt hg e3y e3ok)
+  obtain ⟨e4ok, e4y⟩ := stageOK_eval c s _ _ (cur.time + dt) a4 _ hc h4 k3
+  -- accepted state and its evaluation inside postProcess
+  have kN := stageOK_process c s _ _ hg (stageOK_stageX c s _ _ _ dt hg e4y e4ok)
+  obtain ⟨pok, py⟩ := stageOK_eval c s _ _ (cur.time + dt) aPost _ hc ha kN
+  obtain ⟨sD, hD⟩ := finishStep_total c s _ _ (cur.time + dt) _ upd hs pok py hul hu
+  unfold rk4Step
+  simp only
+  have : finishStep c (rk4Post c s tf dtminS dtmaxS a2 a3 a4 aPost) ((s.cur c.nElem).time + acceptedDt c s tf dtminS dtmaxS)
+      (processAll c (rk4Evals c s (acceptedDt c s tf dtminS dtmaxS) a2 a3 a4).s4.1
+        (rk4Evals c s (acceptedDt c s tf dtminS dtmaxS) a2 a3 a4).xNew) upd = some sD := hD
+  rw [this]
+  exact ⟨_, rfl⟩
+
+theorem finishStep_ready (c : Cfg α) (s sE : St α) (y : Slice α) (t' : α) (x : List (List α)) (upd : List (UpdAns α)) (sD : St α)
+    (hs : StReady c s) (hst : StageOK s sE x) (hy : y.ph.length = s.ph.length) (hul : upd.length = s.ph.length)
+    (hu : ∀ u ∈ upd, UpdShaped c s.ph.length u) (h : finishStep c (sE, y) t' x upd = some sD) :
+    StReady c sD ∧ sD.ph.length = s.ph.length := by
+  obtain ⟨hc, hcur, hq⟩ := hs
+  obtain ⟨hl, hh, hgr, hxl, hxi⟩ := hst
+  have hhist := finishStep_hist _ _ _ _ _ _ h
+  unfold finishStep at h
+  have hqE : AllQ GridReady sE.ph := by
+    intro ps hps
+    rw [List.mem_iff_getElem?] at hps
+    obtain ⟨i, hi⟩ := hps
+    obtain ⟨ps0, h0, hg⟩ := hgr i ps hi
+    rw [hg]; exact hq ps0 (List.mem_of_getElem? h0)
+  have hlen : sD.ph.length = s.ph.length := by
+    have := updateAll_length c t' x { sE with hist := y :: sE.hist } sD 0 upd
+      (by show c.phases.length = sE.ph.length; rw [hl]; exact hc)
+      (by show (St.cur c.nElem { sE with hist := y :: sE.hist }).ph.length = sE.ph.length
+          simp only [St.cur, List.headD_cons]; rw [hy, hl])
+      (by rw [hul, hxl]) (by intro u hu'; show UpdShaped c sE.ph.length u; rw [hl]; exact hu u hu') h
+    rw [this]; exact hl
+  refine ⟨⟨by rw [hlen]; exact hc, ?_, updateAll_allQ GridReady c (gridReady_closed c) t' x { sE with hist := y :: sE.hist } sD 0 upd hqE h⟩, hlen⟩
+  simp only [St.cur, hhist, List.headD_cons]
+  rw [hlen]; exact hy
+
+/-- the answers one pass of the loop consumes have the right shape -/
+def StepShaped (c : Cfg α) (n : Nat) : StepAns α → Prop
+  | .euler a u => AnsShaped c n a ∧ u.length = n ∧ ∀ x ∈ u, UpdShaped c n x
+  | .rk4 a2 a3 a4 a u => AnsShaped c n a2 ∧ AnsShaped c n a3 ∧ AnsShaped c n a4 ∧ AnsShaped c n a ∧ u.length = n ∧
+      ∀ x ∈ u, UpdShaped c n x
+
+theorem anyStep_total (c : Cfg α) (s : St α) (tf dtminS dtmaxS : α) (au : StepAns α) (hs : StReady c s)
+    (hsh : StepShaped c s.ph.length au) : ∃ o, anyStep c s tf dtminS dtmaxS au = some o := by
+  cases au with
+  | euler a u => exact eulerStep_total c s tf dtminS dtmaxS a u (stReady_good c s hs) hsh.1 hsh.2.1 hsh.2.2
+  | rk4 a2 a3 a4 a u =>
+    exact rk4Step_total c s tf dtminS dtmaxS a2 a3 a4 a u (stReady_good c s hs) hsh.1 hsh.2.1 hsh.2.2.1 hsh.2.2.2.1
+      hsh.2.2.2.2.1 hsh.2.2.2.2.2
+
+theorem rk4Step_ready (c : Cfg α) (s : St α) (tf dtminS dtmaxS : α) (a2 a3 a4 aPost : EvalAns α) (upd : List (UpdAns α))
+    (o : StepOut α) (hs : StReady c s) (h2 : AnsShaped c s.ph.length a2) (h3 : AnsShaped c s.ph.length a3)
+    (h4 : AnsShaped c s.ph.length a4) (ha : AnsShaped c s.ph.length aPost) (hul : upd.length = s.ph.length)
+    (hu : ∀ u ∈ upd, UpdShaped c s.ph.length u) (h : rk4Step c s tf dtminS dtmaxS a2 a3 a4 aPost upd = some o) :
+    StReady c o.st ∧ o.st.ph.length = s.ph.length := by
+  have hc := hs.1
+  have hcur := hs.2.1
+  have hg : AllGood s.ph := fun ps hps => (hs.2.2 ps hps).1
+  set dt := acceptedDt c s tf dtminS dtmaxS with hdt
+  set cur := s.cur c.nElem with hcu
+  have k1 := stageOK_process c s s _ hg (stageOK_stageX c s s (entryX c s) cur (dt / 2) hg hcur (stageOK_entry c s hg))
+  obtain ⟨e2ok, e2y⟩ := stageOK_eval c s s _ (cur.time + dt / 2) a2 cur hc h2 k1
+  have k2 := stageOK_process c s _ _ hg (stageOK_stageX c s _ _ _ (dt / 2) hg e2y e2ok)
+  obtain ⟨e3ok, e3y⟩ := stageOK_eval c s _ _ (cur.time + dt / 2) a3 _ hc h3 k2
+  have k3 := stageOK_process c s _ _ hg (stageOK_stageX c s _ _ _ dt hg e3y e3ok)
+  obtain ⟨e4ok, e4y⟩ := stageOK_eval c s _ _ (cur.time + dt) a4 _ hc h4 k3
+  have kN := stageOK_process c s _ _ hg (stageOK_stageX c s _ _ _ dt hg e4y e4ok)
+  obtain ⟨pok, py⟩ := stageOK_eval c s _ _ (cur.time + dt) aPost _ hc ha kN
+  simp only [rk4Step] at h
+  split at h
+  · simp at h
+  · next sD hD =>
+    simp only [Option.some.injEq] at h; subst h
+    exact finishStep_ready c s _ _ (cur.time + dt) _ upd sD hs pok py hul hu hD
+
+theorem anyStep_ready (c : Cfg α) (s : St α) (tf dtminS dtmaxS : α) (au : StepAns α) (o : StepOut α) (hs : StReady c s)
+    (hsh : StepShaped c s.ph.length au) (h : anyStep c s tf dtminS dtmaxS au = some o) :
+    StReady c o.st ∧ o.st.ph.length = s.ph.length := by
+  cases au with
+  | euler a u => exact eulerStep_ready c s tf dtminS dtmaxS a u o hs hsh.1 hsh.2.1 hsh.2.2 h
+  | rk4 a2 a3 a4 a u =>
+    exact rk4Step_ready c s tf dtminS dtmaxS a2 a3 a4 a u o hs hsh.1 hsh.2.1 hsh.2.2.1 hsh.2.2.2.1 hsh.2.2.2.2.1
+      hsh.2.2.2.2.2 h
+
+/-- **every run of the composed model runs through**: any number of passes of the solver loop, either iterator in any pass, every
+stream of backend answers of the right shape (failures of the growth request included) — the model of `solve` never raises -/
+theorem runSteps_total (c : Cfg α) (tf dtminS : α) :
+    ∀ (steps : List (StepAns α)) (s : St α) (m : α), StReady c s → (∀ au ∈ steps, StepShaped c s.ph.length au) →
+      ∃ r, runSteps c tf dtminS s m steps = some r
+  | [], s, m, _, _ => ⟨(s, m), by simp [runSteps]⟩
+  | au :: rest, s, m, hs, hsh => by
+    simp only [runSteps]
+    split
+    · obtain ⟨o, ho⟩ := anyStep_total c s tf dtminS m au hs (hsh au (by simp))
+      rw [ho]
+      obtain ⟨hr, hl⟩ := anyStep_ready c s tf dtminS m au o hs (hsh au (by simp)) ho
+      exact runSteps_total c tf dtminS rest o.st _ hr (by intro au' h'; rw [hl]; exact hsh au' (by simp [h']))
+    · exact ⟨_, rfl⟩
+
+
 /-! ### non-vacuity
 
 `GridGood` is satisfiable (the grid a `PopulationBalanceModel` is constructed with).  The hypothesis `… = some o` of the step
